@@ -5,4 +5,4 @@ THEOREMS = ['classify', 'one_per_address', 'store_older', 'frame', 'step_addrUni
 
 
 def run():
-    run_store('C09', THEOREMS, """Focus: stores at the same and at neighbouring addresses (kind +-1 across every class boundary, the three authors, the d set, events with two d tags, a d tag without value) in every timestamp order, resubmission, removal in between; oracle: reply class, retrievable set, and find_replaceable / find_parameterized return the single holder.""", {'reply', 'live', 'address'})
+    run_store('C09', THEOREMS, """Focus: stores at the same and at neighbouring addresses (kind +-1 across every class boundary, the three authors, the d set, events with two d tags, a d tag without value) in every timestamp order, resubmission, removal in between; oracle: reply class, retrievable set, and find_replaceable / find_parameterized return the single holder.""", {'reply', 'live', 'address'}, relevant={'STO', 'HAS', 'GID', 'FRP', 'FPR'})
